@@ -24,7 +24,7 @@ Import ListNotations.
 Inductive beh :=
 | Ret (b : bool)                    (* return a falsy / truthy value *)
 | Raise                             (* raise an exception *)
-| Act (catch : bool) (o : own_op) (k : beh).
+| Act (catch : bool) (o : own_op) (k : beh).   (* for [TakeFail] the error is copy.deepcopy's exception *)
 
 (* hooks that are not handed the message (handle_proxied_packet, handle_rlv_command) *)
 Inductive pbeh := PRet (b : bool) | PRaise.
@@ -295,16 +295,25 @@ Definition is_exc (e : ev) : bool :=
   match e with EExcHook | EExcSub | EExcHandler _ | EExcRlv => true | _ => false end.
 Definition is_escape (e : ev) : bool := match e with EEscape => true | _ => false end.
 Definition count (f : ev -> bool) (es : list ev) : nat := length (filter f es).
-Definition strip_exc (es : list ev) : list ev := filter (fun e => negb (is_exc e)) es.
+(* the record of a take() that failed in its copy step *)
+Definition is_failed_take (e : ev) : bool := match e with EOp TakeFail _ => true | _ => false end.
+(* trace without exception-log entries and failed-take records *)
+Definition strip_exc (es : list ev) : list ev := filter (fun e => negb (is_exc e || is_failed_take e)) es.
 
 (* ------------------------------------------------------------------ normalisation (for isolation) *)
 
-(* the same behaviour with every `raise` replaced by `return None` *)
+(* the same behaviour with every `raise` replaced by `return None`, and every failing take()
+   removed: where the addon catches the failure the hook simply goes on, where it does not the
+   hook ends there with a falsy return *)
 Fixpoint calm (b : beh) : beh :=
   match b with
   | Ret r => Ret r
   | Raise => Ret false
-  | Act c o k => Act c o (calm k)
+  | Act c o k =>
+    match o with
+    | TakeFail => if c then calm k else Ret false
+    | _ => Act c o (calm k)
+    end
   end.
 Definition calm_p (p : pbeh) : pbeh := match p with PRaise => PRet false | _ => p end.
 Definition calm_hs (hs : hookset) : hookset :=
